@@ -33,6 +33,9 @@ CHECKS = {
  "C13": dict(cat="model_checking", design="3/C13", technique="TLA+ model of the lookup-refresh rule (MC_KWN.tla) checked by TLC over all temperature paths; KWN_Trace.tla binds real non-isothermal runs to the same Refresh operator via the temperatures at which the scripted backend is asked to build tables",
              text="LookupFresh is an invariant of the refresh rule over every heating/cooling/hold/reversal path on the lattice; on real runs the acceptor keeps the table stamp, predicts when a rebuild is due with the same operator, and requires the recorded temperature to equal the schedule, the table to be within maxTempChange, and the accumulator to match.",
              note="integer milli-kelvin temperatures; binary systems (the multicomponent path has no lookup table)"),
+ "C19": dict(cat="model_checking", design="3/C19", technique="TLA+ model of condition latches and the stop formula (Stopping.tla) checked by TLC over all value trajectories; Stopping_Trace.tla validates real runs and TTPCalculator sweeps via a spy condition that snapshots every condition after every test",
+             text="LatchMonotone, StopsAtFirst, LatchIsHistory, TimeInsideStep and ResetClears are checked on every trajectory of a 5-point lattice for or/and mixes of 1-3 conditions; real PrecipitateModel runs with the six condition classes (thresholds early/late/never/already met) and TTP sweeps are accepted only if the objects' latches, reported times and the stop decision agree with the specification's own latches computed from the recorded histories.",
+             note="conditions installed before the run; scripted thermodynamics; times compared with rtol 1e-9"),
 }
 
 NOT_APPLICABLE = {
